@@ -165,7 +165,7 @@ fn maybe_reorder(case: &mut Case, r: &mut Prng, per_mille: u32) {
 pub const META_C02: Meta = Meta {
     id: "C02",
     level: "exploration",
-    rule: "Cases from profiles `flow`+`expand` (C/X rows, loops) with both driver variants (overriding write_input or not), random output layouts and, in 35% of cases, a driver error injected at a random call index. The recording driver logs every call before answering. Online protocol oracle after every step: constructor = exactly one output-reading call with all input-capable signals at default and changed=false; each row = exactly one call whose input list is element-wise identical (signal, value, changed) to row.inputs; output-reading call for checked rows, write_input for mid-clock rows (empty outputs); driver-error item = exactly the failing call; End = no call; nothing after End; every logged call accounted for; device-side vectors equal the prescribed ones. Non-trivial = >= 3 rows, call log >= 4, and a C expansion or an injected fault.",
+    rule: "Cases from profiles `flow`+`expand` (C/X rows, loops) with both driver variants (overriding write_input or not), random output layouts and, in 35% of cases, a driver error injected at a random call index. The recording driver logs every call before answering. Online protocol oracle after every step: constructor = exactly one output-reading call with all input-capable signals at default and changed=false; each row = exactly one call whose input list is element-wise identical (signal, value, changed) to row.inputs; output-reading call for checked rows, write_input for mid-clock rows (empty outputs); driver-error item = exactly the failing call; End = no call; nothing after End; every logged call accounted for; device-side vectors equal the prescribed ones. 40% of the error-free cases are run again with the caller consuming the iterator through nth(k) / by_ref().skip(k).next() / step_by(s) / count() / last(): the driver's call log must equal the plain run's call for call and every delivered item must be the plain run's item at that position. Non-trivial = >= 3 rows, call log >= 4, and a C expansion or an injected fault.",
     assumptions: &[
         "the recording driver sees every call the crate makes (it is the only TestDriver instance)",
         "reference interpreter decides which rows are checked / mid-clock",
@@ -199,7 +199,8 @@ pub fn c02(case_seed: u64, acc: &mut Acc) {
     }
     let mut case = gen::generate(&mut r, &cfg);
     maybe_fault(&mut case, &mut r, 350);
-    run_oracles(
+    let held_before = acc.held;
+    let ran = run_oracles(
         &case,
         case_seed,
         "gen",
@@ -225,6 +226,14 @@ pub fn c02(case_seed: u64, acc: &mut Acc) {
             );
         },
     );
+    // the same program consumed through nth / skip / step_by / count / last
+    if let Some(ran) = ran {
+        if acc.held > held_before && r.chance(400, 1000) {
+            if let Some(f) = super::adaptor_check(&case, &ran.pr, &ran.real, &mut r, acc) {
+                acc.violation(case_seed, "gen", f, case_json(&case, &ran.pr));
+            }
+        }
+    }
 }
 
 // ----------------------------------------------------------------------------------- C03
@@ -918,7 +927,7 @@ pub fn c14(case_seed: u64, acc: &mut Acc) {
 pub const META_C18: Meta = Meta {
     id: "C18",
     level: "exploration",
-    rule: "Cases from profile `flow` with deliberately overlapping name pools (n, i, output names, virtual-signal names), shadow depth up to 5, plus the `virtual` profile (the variable swap around virtual-signal evaluation must be undone). After every yielded row vars() is sampled and must equal the flattening (innermost binding wins) of the reference interpreter's frame stack at the moment the row's source statement was evaluated - so loop variables of ended loops are absent, shadowed outer values are back, and no output / virtual signal name appears unless a variable of that name is in scope. Non-trivial = a row yielded at frame depth >= 2 while some name is bound in two frames, or the first row after a loop has ended.",
+    rule: "Cases from profile `flow` with deliberately overlapping name pools (n, i, output names, virtual-signal names), shadow depth up to 5, plus the `virtual` profile (the variable swap around virtual-signal evaluation must be undone). After every yielded row vars() is sampled and must equal the flattening (innermost binding wins) of the reference interpreter's frame stack at the moment the row's source statement was evaluated - so loop variables of ended loops are absent, shadowed outer values are back, and no output / virtual signal name appears unless a variable of that name is in scope. A second, text-only oracle runs on every case: the keys of vars() at a row are a subset of the names that can be in scope at that place of the text, and at rows outside every loop/while the constant top-level bindings are back with their own value; it also covers the 4% of cases in which a loop body rebinds the loop's own counter (to MAX, MAX-1 or 2^40), where the reference abstains. Non-trivial = a row yielded at frame depth >= 2 while some name is bound in two frames, or the first row after a loop has ended.",
     assumptions: &["reference interpreter's frame stack"],
     quick_cases: 150000,
     thorough_cases: 3000000,
@@ -939,9 +948,40 @@ pub fn c18(case_seed: u64, acc: &mut Acc) {
         c
     };
     let mut case = gen::generate(&mut r, &cfg);
+    if r.chance(40, 1000) && !case.program.uses_random() {
+        // a loop whose body rebinds the loop's own counter (to i64::MAX, MAX-1, beyond or below
+        // the bound): how often it runs is not C01's business and the reference abstains, but
+        // what vars() may hold at each row follows from the text alone
+        let mut probe = case.clone();
+        if super::hazard::counter_rebind_variant(&mut probe, &mut r) {
+            // make sure something is yielded after the loop, at top level
+            if let Some(Item::Row(_, es)) = probe.program.items.iter().rev().find(|i| matches!(i, Item::Row(..))).cloned() {
+                probe.program.items.push(Item::Row(0, es));
+            }
+            let mut next = 0;
+            renumber(&mut probe.program.items, &mut next);
+            acc.cases += 1;
+            if !super::preflight_ok(&probe, acc) {
+                return;
+            }
+            let pr = pp::print(&probe.program, &probe.layout_opts);
+            let real = run_text(&pr.text, &probe.signals, &probe.script, &RunOpts { max_steps: REAL_STEP_CAP, probe_after_end: 0, stop_at_error: true, seed: Some(probe.rng_seed), continue_on: None });
+            acc.evaluations += 1;
+            acc.tag("loop_counter_rebound_by_its_own_body");
+            if let Some(f) = first_some(vec![no_panic(&real), accepted(&real), super::vars_within_textual_scope(&probe.program, &pr, &real, acc)]) {
+                acc.violation(case_seed, "counter-rebind", f, case_json(&probe, &pr));
+                return;
+            }
+            acc.held += 1;
+            let h = case_hash(&probe, &pr);
+            acc.distinct.insert(h);
+            return;
+        }
+    }
     maybe_fault(&mut case, &mut r, 150);
     maybe_reorder(&mut case, &mut r, 60);
-    run_oracles(
+    let held_before = acc.held;
+    let ran = run_oracles(
         &case,
         case_seed,
         "gen",
@@ -955,6 +995,14 @@ pub fn c18(case_seed: u64, acc: &mut Acc) {
             acc.event("vars_snapshots_compared", ran.rf.stats.rows as u64);
         },
     );
+    // the text-only reading of C18 holds for every run, whatever the device answered
+    if let Some(ran) = ran {
+        if acc.held > held_before {
+            if let Some(f) = super::vars_within_textual_scope(&case.program, &ran.pr, &ran.real, acc) {
+                acc.violation(case_seed, "gen", f, case_json(&case, &ran.pr));
+            }
+        }
+    }
 }
 
 // ----------------------------------------------------------------------------------- C19
